@@ -74,7 +74,7 @@ def parts_of(content, mode, encoding):
 
 def request(case):
     """Request line for the extracted model. `case` uses canonical option spellings."""
-    o = case
+    o = {k: v for k, v in case.items() if not k.startswith('_')}
     parts = parts_of(o['content'], o.get('mode'), o.get('encoding'))
     toks = ['encode',
             '-' if o.get('error') is None else str(ERRORS[o['error']]),
@@ -113,7 +113,7 @@ def run_impl(case):
 
 
 def describe(case):
-    d = dict(case)
+    d = {k: v for k, v in case.items() if not k.startswith('_')}
     c = d['content']
 
     def one(x):
